@@ -1,2 +1,38 @@
-(* C18 theta part -- being written *)
-From DS Require Import Base.Prelude Model.Theta Model.ThetaCodec Spec.ThetaLayout.
+(* C18, theta part -- a theta sketch retains at most 15/16 * 2k entries (k after trim), and its
+   compact image has 8 * preamble_longs + 8 * retained bytes.  Statements only; proofs in
+   Proofs/ThetaKmv.v (capacity), Proofs/ThetaCodec.v, Proofs/ThetaCodecReach.v. *)
+From DS Require Import Base.Prelude Base.ThetaLib Model.Theta Model.ThetaCodec.
+From DS Require Import Proofs.ThetaProofs Proofs.ThetaKmv Proofs.ThetaCodec Proofs.ThetaCodecReach.
+Open Scope N_scope.
+
+(* theta_retained_bound: n <= 15/16 * 2^(lg_k+1) after every operation of every history *)
+Theorem c18_theta_retained_bound :
+  forall reorder, reorder_ok reorder -> forall c ops s, cfg_ok c -> reach reorder c ops s ->
+  16 * sk_num_retained s <= 15 * 2 ^ (c_lg_nom c + 1).
+Proof. exact retained_bound. Qed.
+
+(* ... and exactly min(n, k) after trim() *)
+Theorem c18_theta_retained_after_trim :
+  forall reorder, reorder_ok reorder -> forall c ops s, cfg_ok c -> reach reorder c ops s ->
+  exists s', reach reorder c (ops ++ [OTrim]) s' /\ sk_num_retained s' = N.min (sk_num_retained s) (2 ^ c_lg_nom c).
+Proof. exact retained_after_trim. Qed.
+
+(* the uncompressed image: 8 * preamble_longs + 8 * entries bytes, for any compact sketch *)
+Theorem c18_theta_image_size :
+  forall c, length (c_serialize c) = (8 * N.to_nat (c_preamble_longs c) + 8 * length (ce_entries c))%nat.
+Proof. exact serialize_size. Qed.
+
+(* hence bounded by the configuration: at most 24 + 8 * 15/16 * 2^(lg_k+1) bytes (written times 16) *)
+Theorem c18_theta_image_size_bound :
+  forall reorder, reorder_ok reorder -> forall c ops s ordered, cfg_ok c -> reach reorder c ops s ->
+  let k := sk_compact s ordered in
+  length (c_serialize k) = (8 * N.to_nat (c_preamble_longs k) + 8 * N.to_nat (sk_num_retained s))%nat /\
+  (N.to_nat (c_preamble_longs k) <= 3)%nat /\
+  16 * N.of_nat (length (c_serialize k)) <= 16 * 24 + 8 * (15 * 2 ^ (c_lg_nom c + 1)).
+Proof. exact image_size_bound. Qed.
+
+Example c18_theta_example :
+  let c := mkCfg 5 1 0x3ff0000000000000 37836 in
+  exists s, reach ascending c (map OUpdate (rangeN 60 1)) s /\ sk_num_retained s = 60 /\
+            16 * 60 = 15 * 2 ^ (5 + 1) /\ length (c_serialize (sk_compact s true)) = (16 + 8 * 60)%nat.
+Proof. eexists. split; [vm_compute; reflexivity|]. vm_compute. repeat split; reflexivity. Qed.
